@@ -24,7 +24,7 @@ ASSUMPTIONS = [
     "a call is REQUIRED when an exposed attribute of the entity has no admissible value in common before and after the frame; FORBIDDEN when every record of the frame is byte-identical to the entity's previous report, after unsubscribe, with a foreign identifier, and for AC state-only subscribers on zone-only frames; everything else MAY notify",
     "how many times a required call is made for one frame is not constrained (a zone change reaches the AC's subscribers once per zone)",
 ]
-PROBES = ["c12.change_inside_callback", "c12.identical_repeat", "c12.required_call", "c12.unsubscribed", "c12.raising", "c12.twin", "c12.state_only_zone_frame", "c12.unexposed_change", "c12.version"]
+PROBES = ["c12.unsubscribe_during_held_up_update", "c12.change_inside_callback", "c12.identical_repeat", "c12.required_call", "c12.unsubscribed", "c12.raising", "c12.twin", "c12.state_only_zone_frame", "c12.unexposed_change", "c12.version"]
 
 
 def budget(tier: str) -> int:
@@ -92,6 +92,23 @@ def generate(rng, index: int, tier: str) -> dict:
         tl.append({"at": t, "op": "user.subscribe", "name": nm, "target": s0["target"], "method": un})
         if rng.random() < 0.4:
             tl.append({"at": t + 0.5 * rng.randint(1, 3), "op": "user.subscribe", "name": nm, "target": s0["target"], "method": s0["method"]})
+    if rng.random() < 0.3:
+        # an update whose handling has to wait: the AC reports an error code (the client asks for the description before it
+        # notifies) while the peer's window is closed; a subscriber of that AC unsubscribes while the request is held up
+        for _ in range(rng.choice([1, 2])):
+            ac_subs = [x for x in subs if x["target"][0] == "ac" and not x.get("then")]
+            if not ac_subs:
+                break
+            victim = rng.choice(ac_subs)
+            ac = victim["target"][1]
+            b = 6.0 + 0.5 * rng.randrange(n) + 0.3125
+            un = {"subscribe": "unsubscribe", "subscribe_ac_state": "unsubscribe_ac_state"}[victim["method"]]
+            tl.append({"at": b, "op": "net.stall", "on": True})
+            tl.append({"at": b + 2.0**-6, "op": "console.set", "entity": ["ac", ac], "fields": {"error": rng.choice([3, 0x22, 0x1234]), "setpoint": G.ac_state(rng, gen)["setpoint"]}, "only": True})
+            tl.append({"at": b + 2.0**-5, "op": "user.subscribe", "name": victim["name"], "target": victim["target"], "method": un, "during_stall": True})
+            if rng.random() < 0.5:
+                tl.append({"at": b + 2.0**-5, "op": "user.subscribe", "name": f"ac{ac}late", "target": ["ac", ac], "method": "subscribe"})
+            tl.append({"at": b + 0.125, "op": "net.stall", "on": False})
     tl.sort(key=lambda s: s["at"])
     return {"gen": gen, "mode": "api", "installation": inst, "knobs": knobs, "timeline": tl, "end": 6.0 + 0.5 * n + 1.0}
 
@@ -143,16 +160,35 @@ def execute(sc: dict) -> dict:
     window = None  # dict describing the current frame window
     windows = []
     calls_outside = []
+    # intervals in which the client's writes are held by flow control: the processing of a frame that makes the client write
+    # (error description request) only finishes when the window re-opens, so everything up to that instant is one window
+    stalls = []
+    on_at = None
+    for st in sorted(sc["timeline"], key=lambda x: x["at"]):
+        if st["op"] == "net.stall":
+            if st.get("on", True):
+                on_at = st["at"]
+            elif on_at is not None:
+                stalls.append((on_at, st["at"]))
+                on_at = None
     for (seq, t, kind, f) in events:
         if kind == "user.subscribe":
             nm, meth, tgt = f["k"], f["m"], tuple(f["target"])
             sub_target[nm] = tgt
+            if not f.get("inside") and window is not None:
+                # changed between the arrival of a frame and the end of its processing (the notification can be held up by a
+                # write the client makes first): what is required of this subscriber for that frame is open - but once an
+                # unsubscribe has returned, no call may follow
+                window["volatile"].add(nm)
+                if meth in ("subscribe", "subscribe_ac_state"):
+                    window["active"].setdefault(nm, set()).add((tgt, "general" if meth == "subscribe" else "state"))
             if f.get("inside"):
                 # changed while a notification round was in progress: whether the subscriber concerned takes part in the rest
                 # of this round is not defined; everybody else's calls still are
                 probes["c12.change_inside_callback"] = 1
                 if window is not None:
                     window["volatile"].add(nm)
+                    window["inside_changed"].add(nm)
                     window["active"].setdefault(nm, set()).add((tgt, "general"))
             st = active.setdefault(nm, set())
             if meth == "subscribe":
@@ -177,7 +213,8 @@ def execute(sc: dict) -> dict:
                     _remember(r, last_rec)
                 continue
             after = m.expected()
-            if window is not None and window["t"] == t:
+            held = window is not None and any(a <= window["t"] <= b and t <= b + 1e-9 for (a, b) in stalls)
+            if window is not None and (window["t"] == t or held):
                 # frames of one instant form one window: the client works through them (and through the records of one
                 # frame) in order, but an answer it provoked half-way (error text request) can reach its buffer before the
                 # remaining records are processed, so a notification cannot be attributed to a single frame by position
@@ -186,7 +223,7 @@ def execute(sc: dict) -> dict:
                 window["identical"] = window["identical"] and _all_identical(readings, last_rec)
                 window["frames"] += 1
             else:
-                window = {"seq": seq, "t": t, "readings": readings, "before": before, "after": after, "calls": [], "frames": 1, "volatile": set(),
+                window = {"seq": seq, "t": t, "readings": readings, "before": before, "after": after, "calls": [], "frames": 1, "volatile": set(), "inside_changed": set(), "dead_calls": [],
                           "active": {k: set(v) for k, v in active.items()}, "identical": _all_identical(readings, last_rec)}
                 windows.append(window)
             for r in readings:
@@ -194,6 +231,8 @@ def execute(sc: dict) -> dict:
         elif kind == "sub.call":
             if window is not None:
                 window["calls"].append((f["k"], f["args"], seq))
+                if not active.get(f["k"]) and f["k"] not in window["inside_changed"]:
+                    window["dead_calls"].append(f["k"])
             elif seq > seq_init:
                 calls_outside.append((f["k"], seq))
     if calls_outside:
@@ -207,6 +246,10 @@ def execute(sc: dict) -> dict:
         called = {}
         for (nm, args, _s) in calls:
             called.setdefault(nm, []).append(args)
+        if win["dead_calls"]:
+            probes["c12.unsubscribed"] = 1
+            V.append(viol("C12.called_after_unsubscribe", {"sub": win["dead_calls"][0], "t": win["t"], "why": "unsubscribe had returned before this call was made"}))
+            break
         # forbidden: no active subscription; foreign identifier
         for nm, arglist in called.items():
             subs_of = act.get(nm, set())
@@ -275,6 +318,8 @@ def execute(sc: dict) -> dict:
                 probes["c12.twin"] = 1
                 if totals.get(nm, 0) != totals.get(base, 0) and not V:
                     V.append(viol("C12.double_subscription_effect", {"once": totals.get(base, 0), "twice": totals.get(nm, 0), "sub": nm}))
+    if any(st.get("during_stall") for st in sc["timeline"]):
+        probes["c12.unsubscribe_during_held_up_update"] = 1
     if any(st.get("unexposed") for st in sc["timeline"]):
         probes["c12.unexposed_change"] = 1
     if w.final.get("exceptions"):
